@@ -91,6 +91,12 @@ pub struct OrderSpec {
     pub has_limit: bool,
 }
 
+impl From<&super::grammar::QueryFlags> for OrderSpec {
+    fn from(f: &super::grammar::QueryFlags) -> Self {
+        OrderSpec { key_cols: f.order_key_cols.clone(), ordered: f.ordered, has_limit: f.has_limit }
+    }
+}
+
 /// Compare two engine results of one query under two routes/configurations.
 ///
 /// * no ORDER BY, no LIMIT: multiset equality;
